@@ -20,10 +20,15 @@ type c10p struct {
 	maxTime                              time.Duration
 	shape                                string
 	gap                                  time.Duration // virtual delay between batches
+	comp                                 bs.CompressionType // "" = the scenarios' base configuration
 }
 
 func (p c10p) name() string {
-	return fmt.Sprintf("br%d-bb%d-gr%d-gb%d-t%dms-%s-gap%dms", p.bufRows, p.bufBytes, p.grpRows, p.grpBytes, p.maxTime/time.Millisecond, p.shape, p.gap/time.Millisecond)
+	n := fmt.Sprintf("br%d-bb%d-gr%d-gb%d-t%dms-%s-gap%dms", p.bufRows, p.bufBytes, p.grpRows, p.grpBytes, p.maxTime/time.Millisecond, p.shape, p.gap/time.Millisecond)
+	if p.comp != "" {
+		n += "-" + string(p.comp)
+	}
+	return n
 }
 
 func c10Batches(shape string) [][]map[string]any {
@@ -76,6 +81,9 @@ func c10Root(p c10p) func() {
 		cfg := baseConfig()
 		cfg.PartitionFunc = func(r map[string]any) string { s, _ := r["p"].(string); return s }
 		cfg.MaxBufferedTime = p.maxTime
+		if p.comp != "" {
+			cfg.RowDataCompression = p.comp
+		}
 		if p.bufRows > 0 {
 			cfg.MaxBufferedRows = p.bufRows
 		}
@@ -205,7 +213,13 @@ func init() {
 				for ti, t := range times {
 					for gi, g := range gaps {
 						_, _, _, _ = si, li, ti, gi
-						ps = append(ps, c10p{l[0], l[1], l[2], l[3], t, sh, g})
+						ps = append(ps, c10p{l[0], l[1], l[2], l[3], t, sh, g, ""})
+						// byte limits count what was ingested, not what a streaming encoder has emitted so far
+						if (l[1] > 0 || l[3] > 0) && (ti == 1 || tier == "thorough") {
+							for _, c := range []bs.CompressionType{bs.CompressionNone, bs.CompressionSnappy, bs.CompressionZstd} {
+								ps = append(ps, c10p{l[0], l[1], l[2], l[3], t, sh, g, c})
+							}
+						}
 					}
 				}
 			}
